@@ -8,6 +8,9 @@ import (
 	"fmt"
 	"os"
 	"path/filepath"
+	"runtime/pprof"
+	"sort"
+	"strings"
 	"time"
 
 	"verifsim/harness"
@@ -40,6 +43,11 @@ func main() {
 	real := flag.Bool("real", false, "real-goroutine mode (binary must be linked against unrewritten moss)")
 	flag.Parse()
 	harness.RealMode = *real
+	if pf := os.Getenv("VERIF_CPUPROFILE"); pf != "" {
+		f, _ := os.Create(pf)
+		pprof.StartCPUProfile(f)
+		defer pprof.StopCPUProfile()
+	}
 
 	simrt.StartWatchdog(30 * time.Second)
 	enc := json.NewEncoder(os.Stdout)
@@ -76,6 +84,7 @@ func main() {
 			os.Exit(2)
 		}
 		l.Outcome = out
+		checkRaceLog(out)
 		if n <= 2 {
 			l.Sample = c
 		}
@@ -127,6 +136,7 @@ func doReplay(path string, enc *json.Encoder) int {
 		fmt.Fprintln(os.Stderr, err)
 		return 2
 	}
+	checkRaceLog(out)
 	enc.Encode(line{Index: rf.Case.Index, Outcome: out})
 	if out.Violation != nil {
 		fmt.Printf("VIOLATION property=%s replay=%s class=%s\n", out.Violation.Prop, path, out.Violation.Class)
@@ -164,4 +174,53 @@ func doMinimise(path, outPath string, budget time.Duration) int {
 	}
 	fmt.Printf("minimised: %d candidate runs\n", tries)
 	return 0
+}
+
+var raceOff int64
+
+// checkRaceLog turns new race-detector reports (GORACE log_path) whose racing
+// access is inside package moss into a C17 violation.
+func checkRaceLog(out *harness.Outcome) {
+	base := os.Getenv("VERIF_RACELOG")
+	if base == "" {
+		return
+	}
+	path := fmt.Sprintf("%s.%d", base, os.Getpid())
+	b, err := os.ReadFile(path)
+	if err != nil || int64(len(b)) <= raceOff {
+		return
+	}
+	txt := string(b[raceOff:])
+	raceOff = int64(len(b))
+	for _, rep := range strings.Split(txt, "==================") {
+		if !strings.Contains(rep, "DATA RACE") {
+			continue
+		}
+		out.RaceReports++
+		var tops []string
+		lines := strings.Split(rep, "\n")
+		for i, ln := range lines {
+			t := strings.TrimSpace(ln)
+			if (strings.HasPrefix(t, "Write at") || strings.HasPrefix(t, "Read at") || strings.HasPrefix(t, "Previous write at") ||
+				strings.HasPrefix(t, "Previous read at") || strings.HasPrefix(t, "Atomic") || strings.HasPrefix(t, "Previous atomic")) && i+1 < len(lines) {
+				tops = append(tops, strings.TrimSpace(lines[i+1]))
+			}
+		}
+		inMoss := false
+		for _, f := range tops {
+			if strings.HasPrefix(f, "github.com/couchbase/moss.") {
+				inMoss = true
+			}
+		}
+		if !inMoss || out.Violation != nil {
+			continue
+		}
+		sort.Strings(tops)
+		if len(rep) > 6000 {
+			rep = rep[:6000]
+		}
+		out.Violation = &harness.Violation{Prop: "C17", Class: "data-race", OpIdx: 0,
+			Msg:    "Go race detector: " + strings.Join(tops, "  vs  "),
+			Detail: map[string]string{"symptom": strings.Join(tops, " vs ")}, Stack: rep}
+	}
 }
